@@ -1,10 +1,93 @@
-/- Line-protocol handlers for C03 (placeholder until the property is built). -/
-import PandoraModel.Model.Basic
+/- Line-protocol handlers for winner-takes-all (C03): model evaluation and specification evaluation. -/
+import PandoraModel.Model.Wta
 
 namespace Pandora.Driver.C03
 open Lean (Json)
+open Pandora Pandora.Wta
 
-def handle (op : String) (_j : Json) : Except String Json :=
-  throw s!"unknown op {op}"
+def splitOfJson (j : Json) : Except String Blocks.Split := do
+  let g (k : String) : Except String Nat := field j k >>= natOfJson
+  return { startY := ← g "startY", stepY := ← g "stepY", stopYDim := ← g "stopYDim",
+           startX := ← g "startX", stepX := ← g "stepX", stopXDim := ← g "stopXDim",
+           beginY := ← g "beginY", beginX := ← g "beginX" }
+
+structure Parsed where
+  x : Input
+  cvArr : Array (Array (List Val))
+
+def parseInput (j : Json) : Except String Parsed := do
+  let rows ← field j "rows" >>= natOfJson
+  let cols ← field j "cols" >>= natOfJson
+  let isMax ← field j "is_max" >>= boolOfJson
+  let disps ← field j "disps" >>= listOfJson ratOfJson
+  let invalid ← field j "invalid" >>= valOfJson
+  let cvL ← field j "cv" >>= listOfJson (listOfJson (listOfJson valOfJson))
+  let cvArr : Array (Array (List Val)) := (cvL.map (·.toArray)).toArray
+  if cvArr.size != rows then throw "cv: wrong number of rows"
+  if cvArr.any (·.size != cols) then throw "cv: wrong number of columns"
+  let cv : Nat → Nat → List Val := fun r c => (cvArr.getD r #[]).getD c []
+  return { x := { rows, cols, isMax, disps, cv, invalid }, cvArr }
+
+def ratGridOfJson (j : Json) (rows cols : Nat) (what : String) : Except String (Nat → Nat → Rat) := do
+  let g ← listOfJson (listOfJson ratOfJson) j
+  let a : Array (Array Rat) := (g.map (·.toArray)).toArray
+  if a.size != rows || a.any (·.size != cols) then throw s!"{what}: wrong shape"
+  return fun r c => (a.getD r #[]).getD c 0
+
+def valGridOfJson (j : Json) (rows cols : Nat) (what : String) : Except String (Nat → Nat → Val) := do
+  let g ← listOfJson (listOfJson valOfJson) j
+  let a : Array (Array Val) := (g.map (·.toArray)).toArray
+  if a.size != rows || a.any (·.size != cols) then throw s!"{what}: wrong shape"
+  return fun r c => (a.getD r #[]).getD c .nan
+
+/-- model: the disparity map and the cost volume after the step -/
+def wta (j : Json) : Except String Json := do
+  let p ← parseInput j
+  let s ← field j "split" >>= splitOfJson
+  let x := p.x
+  let disp := Blocks.tabulate x.rows x.cols (toDisp s x)
+  let cvA := Blocks.tabulate x.rows x.cols (cvAfter x)
+  return mkObj [("disp", gridToJson valToJson disp),
+                ("cv_after", gridToJson (listToJson valToJson) cvA)]
+
+/-- specification evaluated on a disparity map `out` (the implementation's) -/
+def spec (j : Json) : Except String Json := do
+  let p ← parseInput j
+  let x := p.x
+  let lo ← field j "lo" >>= (ratGridOfJson · x.rows x.cols "lo")
+  let hi ← field j "hi" >>= (ratGridOfJson · x.rows x.cols "hi")
+  let out ← field j "out" >>= (valGridOfJson · x.rows x.cols "out")
+  let mut fails : Array Json := #[]
+  let mut nfail := 0
+  let mut notWf : Array Json := #[]
+  let mut withCost := 0
+  let mut allNanCnt := 0
+  let mut ties := 0
+  let mut narrowed := 0
+  for r in [0:x.rows] do
+    for c in [0:x.cols] do
+      let costs := x.cv r c
+      if !(wfPixel x.disps (lo r c) (hi r c) costs) then
+        if notWf.size < 5 then notWf := notWf.push (Json.arr #[natToJson r, natToJson c])
+      if hasCost costs then withCost := withCost + 1 else allNanCnt := allNanCnt + 1
+      if ((idxs costs).filter (isBestIdx x.isMax costs)).length > 1 then ties := ties + 1
+      if hasCost costs && costs.any Val.isNan then narrowed := narrowed + 1
+      let fc := failedClauses x.isMax x.disps (lo r c) (hi r c) costs x.invalid (out r c)
+      if !fc.isEmpty then
+        nfail := nfail + 1
+        if fails.size < 10 then
+          fails := fails.push (mkObj [("r", natToJson r), ("c", natToJson c),
+            ("clauses", listToJson Json.str fc), ("out", valToJson (out r c)),
+            ("costs", listToJson valToJson costs),
+            ("expected", valToJson (wtaPixel x.isMax x.disps costs x.invalid))])
+  return mkObj [("ok", Json.bool (nfail == 0)), ("failures", Json.arr fails), ("nfail", natToJson nfail),
+                ("not_wf", Json.arr notWf), ("with_cost", natToJson withCost),
+                ("all_nan", natToJson allNanCnt), ("ties", natToJson ties), ("partial_nan", natToJson narrowed)]
+
+def handle (op : String) (j : Json) : Except String Json :=
+  match op with
+  | "C03.wta" => wta j
+  | "C03.spec" => spec j
+  | _ => throw s!"unknown op {op}"
 
 end Pandora.Driver.C03
